@@ -586,3 +586,36 @@ Definition check_c08_chars (o c : list N) (m : list N) (bow : list bool) (cats :
                              | None => false
                              end) (seq 0 (char_len c + 1))
    end).
+
+(* ================================================================== with_editor with a closure that may fail
+   with_editor(func): `match func(self, editor) { Ok(_) => self.commit(), Err(e) => { self.rollback(); Err(e) } }`.
+   A closure that records replacements and then answers Err is a REJECTED batch: the recorded replacements are dropped
+   (rollback), the buffer is as it was, the caller sees Err.  fails = the closure answers Err. *)
+Definition with_editor (cfg : bcfg) (s : buf) (fails : bool) (es : list edit) : res buf :=
+  if fails then Err else commit cfg s es.
+
+(* the buffer after a call of with_editor that did not panic *)
+Definition after (s : buf) (r : res buf) : buf := match r with Ok s' => s' | _ => s end.
+
+(* ---- correspondence entry: one InputBuffer object used for several texts in a row (reset + new text), every text
+   rewritten by batches some of which are rejected by their closure after recording edits; after EVERY batch the
+   implementation's status (0 Ok, 1 Err, 2 panic), current() and the offset map are compared with the model *)
+Fixpoint check_steps (s : buf) (bs : list (bool * list edit)) (obs : list (N * list N * list N)) : bool :=
+  match bs, obs with
+  | [], [] => true
+  | (fl, es) :: bs', (st, c, m) :: obs' =>
+      match with_editor the_cfg s fl es with
+      | Panic => N.eqb st 2 && match obs' with [] => true | _ => false end
+      | r => let s' := after s r in
+             N.eqb st (match r with Ok _ => 0%N | _ => 1%N end) &&
+             list_eqb N.eqb (cur s') c && nat_list_eqb (m2o s') m && check_steps s' bs' obs'
+      end
+  | _, _ => false
+  end.
+
+Definition check_c08_session (phases : list (list N * list (bool * list edit) * list (N * list N * list N))) : bool :=
+  forallb (fun ph => let '(o, bs, obs) := ph in
+                     match start_build the_cfg o with
+                     | Ok s0 => check_steps s0 bs obs
+                     | _ => match obs with [] => true | _ => false end
+                     end) phases.
